@@ -305,8 +305,11 @@ class FpEval:
             return (self.root(r) - self.root(-r)) * pow(2 * zeta(4, 1) % FP, FP - 2, FP) % FP
         if e.func == self.L.UI:
             return 1 if self.rat(e.args[0]) == 0 else 0
-        if e.func == self.L.US:
+        if e.func == self.L.US or e.func == S.Heaviside:
             return 1 if self.rat(e.args[0]) >= 0 else 0
+        if e.func.__name__ == 'dtrect':
+            v = self.rat(e.args[0])
+            return 1 if Fraction(-1, 2) <= v < Fraction(1, 2) else 0
         if e.is_Piecewise:
             for (ex, cond) in e.args:
                 c = cond.subs(self.env)
@@ -383,13 +386,46 @@ def gen_ba(rng, maxpoles=3):
 # --------------------------------------------------------------------------- the check
 
 def run(chk, replay=None):
-    broken = chk.lean(['Lcapy/Props/C13.lean'],
-                      helper_files=['Lcapy/Proofs/DT.lean', 'Lcapy/Model/DT.lean', 'Lcapy/Spec/DT.lean',
-                                    'Lcapy/Driver/C13.lean', 'Lcapy/Model/CRat.lean'],
+    import time
+    from translate import tx_dtseq, branchcov
+    # translator: which exponent / indices nseq.ZT and zseq.IZT use (selects the model the driver runs)
+    txinfo = tx_dtseq.generate(common.REPO, os.path.join(common.VERIF, 'lean', 'Lcapy', 'Generated', 'DTSeq.lean'))
+    chk.coverage['translator'] = {'tx_dtseq': txinfo}
+    broken = chk.lean(['Lcapy/Props/C13.lean', 'Lcapy/Props/C13b.lean'],
+                      helper_files=['Lcapy/Proofs/DT.lean', 'Lcapy/Proofs/DT2.lean', 'Lcapy/Model/DT.lean', 'Lcapy/Spec/DT.lean',
+                                    'Lcapy/Driver/C13.lean', 'Lcapy/Model/CRat.lean', 'Lcapy/Generated/DTSeq.lean'],
                       leanchecker=(chk.tier == 'thorough'))
     drv = chk.get_driver()
     Lc = L()
     S = Lc.S
+    # branch-coverage instrument (from the outside: sys.monitoring LINE events on the anchored functions only)
+    import importlib
+    _dft, _dtft, _zt, _izt, _dlti, _seq, _nseq, _zseq = [importlib.import_module('lcapy.' + m) and sys.modules['lcapy.' + m] for m in (
+        'dft', 'dtft', 'ztransform', 'inverse_ztransform', 'dltifilter', 'sequence', 'nseq', 'zseq')]
+    bcov = branchcov.BranchCov({
+        'dft.py': (_dft, {'DFTTransformer.termXq', 'DFTTransformer.termXk', 'DFTTransformer.term', 'QkTransform.make_transform',
+                          'QkTransform.add', 'QkTransform.simp_qN', 'is_in_interval', 'simp_rat'}),
+        'dtft.py': (_dtft, {'DTFTTransformer.term'}),
+        'ztransform.py': (_zt, {'ZTransformer.term', 'is_multiplied_with'}),
+        'inverse_ztransform.py': (_izt, {'InverseZTransformer.ratfun', 'InverseZTransformer.term1', 'InverseZTransformer.term'}),
+        'dltifilter.py': (_dlti, {'DLTIFilter.response', 'DLTIFilter.zdomain_initial_response', 'DLTIFilter.difference_equation',
+                                  'DLTIFilter.from_transfer_function'}),
+        'sequence.py': (_seq, {'Sequence.lfilter', 'Sequence.convolve', 'Sequence.zeropad'}),
+        'nseq.py': (_nseq, {'DiscreteTimeDomainSequence'}),
+        'zseq.py': (_zseq, {'ZDomainSequence'})})
+    bcov.start()
+    stream_t = {}
+    tmark = [time.time(), 'setup']
+
+    only = os.environ.get('C13_ONLY')          # development aid: run only the named streams
+    only = set(only.split(',')) if only else None
+    cur = [True]
+
+    def stream(name):
+        cur[0] = only is None or name in only
+        now = time.time()
+        stream_t[tmark[1]] = round(stream_t.get(tmark[1], 0) + now - tmark[0], 1)
+        tmark[0], tmark[1] = now, name
     chk.coverage['lcapy_under_test'] = os.path.dirname(Lc.lcapy.__file__)
     rng = chk.rng
     quick = chk.tier == 'quick'
@@ -506,7 +542,8 @@ def run(chk, replay=None):
                      'spec': 'IZT(ZT(x))[n] = x[n] for n >= 0: ' + r, 'origin': origin},
                     'inverse z-transform of the z-transform does not recover the sequence')
 
-    for i in (range(budget['zt']) if gen else []):
+    stream('zt')
+    for i in (range(budget['zt']) if (gen and cur[0]) else []):
         mode = i % 5
         terms = gen_sig(rng, allow_adv=(mode == 4), allow_trig=(mode in (2, 3)), maxterms=(1 if mode in (0, 4) else 3))
         zt_case(terms, 'generated')
@@ -588,12 +625,13 @@ def run(chk, replay=None):
         except Exception as ex:   # noqa
             chk.count('filt.lcapy-error', 'de:' + type(ex).__name__)
 
-    for i in (range(budget['izt']) if gen else []):
+    stream('izt')
+    for i in (range(budget['izt']) if (gen and cur[0]) else []):
         b, a, poles = gen_ba(rng, maxpoles=(2 if quick else 3))
         izt_case(b, a, poles)
     # directed family: H = c z**m / (z - p)**k, i.e. B = c w**j, A = (1 - p w)**k -- the shape of the
     # "1/(z**m (z - 1)) -> u[n - m]" shortcut of InverseZTransformer.ratfun, simple AND repeated pole, p = 1 and p != 1
-    if gen:
+    if gen and cur[0]:
         for kpow in (1, 2, 3):
             for j in (0, 1, 2, 3):
                 for pole in (Fraction(1), rnd_frac(rng, -3, 3, 3)):
@@ -653,7 +691,8 @@ def run(chk, replay=None):
                  'spec': 'sum_k a[k] y[n-k] = sum_l b[l] x[n-l] for n >= 0 with y[-1-i] = ic[i]: ' + bad},
                 'DLTIFilter.response does not satisfy its difference equation')
 
-    for i in (range(budget['resp']) if gen else []):
+    stream('resp')
+    for i in (range(budget['resp']) if (gen and cur[0]) else []):
         nb, na = rng.randint(1, 4), rng.randint(1, 4)
         b = [rnd_frac(rng, -4, 4, 3, nonzero=False) for _ in range(nb)]
         a = [rnd_frac(rng, -4, 4, 3)] + [rnd_frac(rng, -4, 4, 3, nonzero=False) for _ in range(na - 1)]
@@ -667,7 +706,7 @@ def run(chk, replay=None):
         resp_case(b, a, ic, xs, rng.randint(3, 7 if quick else 12))
 
     # malformed stream: wrong number of initial conditions must be refused
-    for i in (range(4 if quick else 20) if gen else []):
+    for i in (range(4 if quick else 20) if (gen and cur[0]) else []):
         na = rng.randint(1, 3)
         a = [Fraction(1)] + [rnd_frac(rng) for _ in range(na - 1)]
         ic = [rnd_frac(rng) for _ in range(na - 1 + rng.choice([1, 2]))]
@@ -712,7 +751,8 @@ def run(chk, replay=None):
                  'spec': 'zero-input response obeys the difference equation with the given past samples: ' + r},
                 'initial_response does not satisfy the difference equation')
 
-    for i in (range(40 if quick else 400) if gen else []):
+    stream('ini')
+    for i in (range(40 if quick else 400) if (gen and cur[0]) else []):
         na = rng.randint(2, 4)
         nb = rng.randint(1, na) if i % 4 else rng.randint(na + 1, na + 2)
         poles = [rnd_frac(rng, -3, 3, 3) for _ in range(na - 1)]          # rational poles keep the samples exactly evaluable
@@ -798,7 +838,8 @@ def run(chk, replay=None):
                  'spec': 'sum_k a[k] y[n-k] = sum_l b[l] x[n-l], x and y zero before the first sample: ' + r},
                 'Sequence.lfilter does not implement the transfer function b/a')
 
-    for i in (range(60 if quick else 600) if gen else []):
+    stream('seq')
+    for i in (range(60 if quick else 600) if (gen and cur[0]) else []):
         xv = [rnd_frac(rng, -4, 4, 2, nonzero=(j in (0,))) for j in range(rng.randint(1, 5))]
         hv = [rnd_frac(rng, -4, 4, 2) for j in range(rng.randint(1, 4))]
         if i % 4 == 1:
@@ -808,7 +849,7 @@ def run(chk, replay=None):
         if i % 4 == 3:
             xv = [Fraction(0)] + xv + [Fraction(0)]
         conv_case(xv, rng.randint(-2, 2), hv, rng.randint(-2, 2))
-    for i in (range(60 if quick else 600) if gen else []):
+    for i in (range(60 if quick else 600) if (gen and cur[0]) else []):
         b = [rnd_frac(rng, -3, 3, 2) for _ in range(rng.randint(1, 3))]
         a = [rnd_frac(rng, -3, 3, 2)] + ([rnd_frac(rng, -3, 3, 2) for _ in range(rng.randint(1, 2))] if i % 2 else [])
         xv = [rnd_frac(rng, -4, 4, 2) for _ in range(rng.randint(1, 5))] + [Fraction(0)] * (0 if i % 3 == 0 else 3)
@@ -909,8 +950,9 @@ def run(chk, replay=None):
                      'lcapy_values_mod_P': got, 'spec_values_mod_P': want, 'spec': 'IDFT(DFT(x))[n] = x[n], n < N'},
                     'IDFT of the DFT does not recover the sequence')
 
+    stream('dft')
     ndft = 160 if quick else 1500
-    for i in (range(ndft) if gen else []):
+    for i in (range(ndft) if (gen and cur[0]) else []):
         mode = i % 8
         symbolic = mode in (5, 6)
         nt = rng.choice([1, 1, 2])
@@ -1033,7 +1075,206 @@ def run(chk, replay=None):
                     'DTFT differs from the defining sum on the unit circle')
                 return
 
-    for i in (range(40 if quick else 400) if gen else []):
+
+    # ------------------------------------------------------------------ directed DFT / IDFT families (branches of termXq / termXk
+    # that the random stream does not reach).  Generic oracle: the INPUT expression is evaluated at n = 0..N-1 in F_P (same
+    # homomorphic evaluator), Lean forms the defining sum of those literal values (`dft.sumlit`), Lcapy's closed form is evaluated
+    # at every k.
+    from lcapy.sym import miscsymbol
+    Nsym = miscsymbol('N', integer=True, positive=True)
+
+    def dft_generic_case(e, N, symbolic, fam, flags=None, piecewise=False, roundtrip=True):
+        newcase()
+        flags = dict(flags or {})
+        key = ('dftgen', str(e), N, symbolic, piecewise)
+        chk.count('dft.directed', fam + (' [symbolic N]' if symbolic else '') + (' [piecewise]' if piecewise else ''))
+        before = bcov.snapshot()
+        try:
+            with common.time_limit(40):
+                xe = Lc.lcapy.nexpr(e)
+                X = xe.DFT(piecewise=piecewise) if symbolic else xe.DFT(N=N, piecewise=piecewise)
+                Xs = X.sympy
+        except common.TimeLimit:
+            chk.count('degenerate', 'dft-directed-timeout')
+            chk.case(key, False)
+            return
+        except Exception as ex:   # noqa
+            chk.count('dft.lcapy-error', fam + ':' + type(ex).__name__)
+            chk.case(key, False)
+            return
+        for (lab, fn, line) in bcov.new_since(before):
+            if lab == 'dft.py':
+                chk.count('dft.directed-new-branches', fam)
+        if Xs.has(S.Sum):
+            chk.count('degenerate', 'dft-no-closed-form')
+            chk.case(key, False)
+            return
+        envN = {s_: S.Integer(N) for s_ in (set(Xs.free_symbols) | set(e.free_symbols)) if s_.name == 'N'}
+        try:
+            xv = []
+            for i in range(N):
+                env = {Lc.n: S.Integer(i)}
+                env.update(envN)
+                xv.append(FpEval(Lc, env).ev(e))
+        except (Unsupported, ZeroDivisionError) as ex:
+            chk.count('degenerate', 'dft-input-unevaluable:' + str(ex)[:30])
+            chk.case(key, False)
+            return
+        chk.case(key, True)
+        chk.sample({'stream': 'dft-directed', 'family': fam, 'expr': str(e)[:120], 'N': N, 'symbolic_N': symbolic, 'lcapy': str(Xs)[:200]})
+        w = zeta(N, -1)
+        kk = {'kind': 'dft', 'geo_base_is_root_of_unity': False, 'impulse_index_wrapped': False, 'family': fam}
+        kk.update(flags)
+        for k in range(N):
+            env = {Lc.k: S.Integer(k)}
+            env.update(envN)
+            try:
+                lv = FpEval(Lc, env).ev(Xs)
+            except ZeroDivisionError:
+                lv = 'pole'
+            except Unsupported as ex:
+                chk.count('degenerate', 'dft-unevaluable:' + str(ex)[:30])
+                return
+            sv = int(drv.ask1('dft.sumlit %d %s' % (pow(w, k, FP), ','.join(str(v) for v in xv))))
+            if lv != sv:
+                cex(kk, {'input': {'expr': str(e), 'N': N, 'symbolic_N': symbolic, 'k': k, 'piecewise': piecewise, 'family': fam}, 'lcapy': str(Xs),
+                         'lcapy_value_mod_P': lv, 'spec_value_mod_P': sv, 'P': FP,
+                         'spec': 'X[k] = sum_{n<N} x[n] exp(-2 pi i n k / N); x[n] from the input expression, sum by Lean (dft.sumlit), in F_P'},
+                    'DFT closed form differs from the defining sum')
+                return
+        if roundtrip and not symbolic:
+            try:
+                with common.time_limit(40):
+                    xr = X.IDFT(N=N).sympy
+                got = [FpEval(Lc, {Lc.n: S.Integer(i)}).ev(xr) for i in range(N)]
+            except common.TimeLimit:
+                chk.count('degenerate', 'idft-directed-timeout')
+                return
+            except Exception as ex:   # noqa
+                chk.count('degenerate', 'idft-unevaluable:' + type(ex).__name__)
+                return
+            chk.count('dft.idft-roundtrip', 'directed')
+            if got != xv:
+                k2 = dict(kk)
+                k2['kind'] = 'idft-dft'
+                k2.setdefault('ramp_step_delay_ge2', False)
+                cex(k2, {'input': {'expr': str(e), 'N': N, 'family': fam}, 'lcapy': {'dft': str(Xs), 'idft': str(xr)},
+                         'lcapy_values_mod_P': got, 'spec_values_mod_P': xv, 'spec': 'IDFT(DFT(x))[n] = x[n], n < N'},
+                    'IDFT of the DFT does not recover the sequence')
+
+    def idft_generic_case(Xe, N, fam):
+        """X[k] given as an expression in k; oracle: the DFT defining sum of Lcapy's IDFT output is X[k] for every k"""
+        newcase()
+        key = ('idftgen', str(Xe), N)
+        chk.count('idft.directed', fam)
+        before = bcov.snapshot()
+        try:
+            with common.time_limit(60):
+                xs = Lc.lcapy.kexpr(Xe).IDFT(N=N).sympy
+        except common.TimeLimit:
+            chk.count('degenerate', 'idft-directed-timeout')
+            chk.case(key, False)
+            return
+        except Exception as ex:   # noqa
+            chk.count('idft.lcapy-error', fam + ':' + type(ex).__name__)
+            chk.case(key, False)
+            return
+        for (lab, fn, line) in bcov.new_since(before):
+            if lab == 'dft.py':
+                chk.count('dft.directed-new-branches', fam)
+        if xs.has(S.Sum):
+            chk.count('degenerate', 'idft-no-closed-form')
+            chk.case(key, False)
+            return
+        try:
+            xv = [FpEval(Lc, {Lc.n: S.Integer(i)}).ev(xs) for i in range(N)]
+            Xv = [FpEval(Lc, {Lc.k: S.Integer(i)}).ev(Xe) for i in range(N)]
+        except (Unsupported, ZeroDivisionError) as ex:
+            chk.count('degenerate', 'idft-unevaluable:' + str(ex)[:30])
+            chk.case(key, False)
+            return
+        chk.case(key, True)
+        chk.sample({'stream': 'idft-directed', 'family': fam, 'X': str(Xe)[:120], 'N': N, 'lcapy': str(xs)[:200]})
+        w = zeta(N, -1)
+        for k in range(N):
+            sv = int(drv.ask1('dft.sumlit %d %s' % (pow(w, k, FP), ','.join(str(v) for v in xv))))
+            if sv != Xv[k]:
+                cex({'kind': 'idft', 'family': fam},
+                    {'input': {'X': str(Xe), 'N': N, 'k': k}, 'lcapy': str(xs), 'dft_of_lcapy_output_mod_P': sv, 'X_value_mod_P': Xv[k],
+                     'spec': 'sum_{n<N} x[n] exp(-2 pi i n k / N) = X[k] for the returned x'},
+                    'IDFT output is not a sequence whose DFT is X')
+                return
+
+    stream('dftdir')
+    if gen and cur[0]:
+        n_ = Lc.n
+        dtrect = Lc.lcapy.extrafunctions.dtrect
+        I_, pi_ = S.I, S.pi
+        R = Lc.rat
+        thor = not quick
+
+        def pick(lst_, k):
+            return lst_ if thor else rng.sample(lst_, min(k, len(lst_)))
+        # D1 rect windows: inside / cut left / cut right / cut both / outside
+        for (c, b, N) in pick([(3, 4, 8), (3, 3, 8), (0, 4, 8), (1, 5, 6), (6, 4, 7), (7, 5, 8), (3, 12, 6), (12, 3, 8), (-5, 3, 8)], 5):
+            w8 = rng.choice([S.Integer(1), n_, R(Fraction(1, 2)) ** n_, n_ ** 2])
+            dft_generic_case(R(rnd_frac(rng)) * w8 * dtrect((n_ - c) / S.Integer(b)), N, False, 'rect', roundtrip=(w8 == 1))
+        # D2 time-reversed steps u(n0 - n); D3 advanced steps u(n + m)
+        for (n0, N) in pick([(3, 8), (0, 6), (9, 6), (-2, 6), (5, 6)], 3):
+            w8 = rng.choice([S.Integer(1), n_, R(Fraction(-2, 3)) ** n_])
+            dft_generic_case(R(rnd_frac(rng)) * w8 * Lc.US(n0 - n_), N, False, 'reversed-step')
+        for (m, N) in pick([(2, 6), (1, 5), (3, 8)], 2):
+            w8 = rng.choice([S.Integer(1), n_, R(Fraction(1, 3)) ** n_])
+            dft_generic_case(R(rnd_frac(rng)) * w8 * Lc.US(n_ + m), N, False, 'advanced-step')
+            dft_generic_case(w8 * Lc.US(n_ + m), N, True, 'advanced-step')
+        # D4 complex exponentials: bin frequency (negative and positive bins, with phase) and off-bin frequency
+        for (m, N) in pick([(-1, 6), (2, 8), (-3, 8), (5, 6), (1, 4)], 3):
+            base = rng.choice([S.Integer(1), Lc.US(n_ - 2), n_, R(Fraction(1, 2)) ** n_, n_ * Lc.US(n_ - 1)])
+            dft_generic_case(R(rnd_frac(rng)) * S.exp(I_ * 2 * pi_ * m * n_ / N + I_ * pi_ / 3) * base, N, False, 'exp-bin')
+        for (r, N) in pick([(Fraction(1, 3), 8), (Fraction(1, 2), 6), (Fraction(-1, 4), 6), (Fraction(2, 3), 4)], 2):
+            base = rng.choice([S.Integer(1), Lc.US(n_ - 1), n_])
+            dft_generic_case(S.exp(I_ * pi_ * R(r) * n_) * base, N, False, 'exp-offbin')
+        dft_generic_case(S.exp(I_ * 2 * pi_ * 2 * n_ / Nsym), 8, True, 'exp-bin')
+        # D5 sinusoids with phase: bin and off-bin
+        for (r, sft, N) in pick([(Fraction(1, 2), Fraction(1, 3), 8), (Fraction(1, 3), Fraction(0), 6), (Fraction(2, 3), Fraction(1, 4), 6),
+                                 (Fraction(1, 3), Fraction(1, 6), 8), (Fraction(1, 4), Fraction(1, 3), 6), (Fraction(1, 2), Fraction(0), 6)], 4):
+            base = rng.choice([S.Integer(1), Lc.US(n_ - 2), n_, R(Fraction(1, 2)) ** n_])
+            f = rng.choice([S.sin, S.cos])
+            fam = 'sinusoid-' + ('bin' if (r * N / 2).denominator == 1 else 'offbin')
+            dft_generic_case(R(rnd_frac(rng)) * f(pi_ * R(r) * n_ + pi_ * R(sft)) * base, N, False, fam)
+        dft_generic_case(S.cos(2 * pi_ * 3 * n_ / Nsym + pi_ / 4), 9, True, 'sinusoid-bin')
+        # D7 higher polynomial weights (generated A_l, B_u polynomials)
+        for (pw, d, N) in pick([(4, 0, 6), (4, 2, 7), (5, 1, 6), (6, 0, 5)], 2):
+            dft_generic_case(n_ ** pw * (Lc.US(n_ - d) if d else 1), N, False, 'n^p p>=4', flags={'ramp_step_delay_ge2': d >= 2})
+        dft_generic_case(n_ ** 4, 7, True, 'n^p p>=4')
+        # D8 impulses: at N - 1 for symbolic N, weighted by n, outside the window
+        dft_generic_case(3 * Lc.UI(n_ - Nsym + 1), 9, True, 'impulse at N-1')
+        dft_generic_case(n_ * Lc.UI(n_ - Nsym + 2), 10, True, 'impulse at N-1')
+        for d in pick([-1, 7, 9], 2):
+            dft_generic_case(2 * Lc.UI(n_ - d), 6, False, 'impulse outside')
+        # D9 piecewise=True output
+        for e_ in pick([S.Integer(2), n_, n_ * Lc.US(n_ - 2), S.exp(I_ * 2 * pi_ * n_ / 6) * n_], 2):
+            dft_generic_case(e_, 6, False, 'piecewise', piecewise=True, flags={'ramp_step_delay_ge2': e_.has(Lc.US)})
+        # D10 forward termXk: x[n] a rational function of exp(j 2 pi n / N)
+        for (a_, pw, N) in pick([(Fraction(1, 2), 1, 6), (Fraction(-2, 3), 2, 5), (Fraction(1, 3), 3, 4), (Fraction(3, 2), 1, 8)], 2):
+            dft_generic_case(1 / (1 - R(a_) * S.exp(I_ * 2 * pi_ * n_ / N)) ** pw, N, False, 'termXk forward', roundtrip=False)
+        # D11 no rule matches: sympy summation fallback
+        dft_generic_case(1 / (n_ + 1), 4, False, 'fallback summation', roundtrip=False)
+        # D12 geometric base that is an N-th root of unity (finding F20)
+        for (e_, N) in pick([((-1) ** n_, 4), (n_ * (-1) ** n_, 6), (S.I ** n_, 8), ((-1) ** n_ * Lc.US(n_ - 1), 6), ((-1) ** n_, 5)], 3):
+            dft_generic_case(e_, N, False, 'root-of-unity base', flags={'geo_base_is_root_of_unity': N % 2 == 0}, roundtrip=False)
+        # I1 IDFT of rational functions of exp(-j 2 pi k / N): simple and repeated poles off the unit circle (termXk, first case)
+        for (a_, pw, N) in pick([(Fraction(1, 2), 1, 6), (Fraction(-1, 3), 2, 5), (Fraction(2, 3), 3, 6), (Fraction(1, 2), 4, 4), (Fraction(-1, 2), 5, 4),
+                                 (Fraction(1, 3), 6, 3)], 3 if quick else 6):
+            q_ = S.exp(-I_ * 2 * pi_ * Lc.k / N)
+            num = rng.choice([S.Integer(1), q_, 1 + 2 * q_]) if pw > 1 else S.Integer(1)
+            idft_generic_case(num / (1 - R(a_) * q_) ** pw, N, 'ratfun pole order %d' % pw)
+        # I2 round trips through the second case of termXk (pole on the unit circle, (1 - delta) factor), all table orders
+        for (pw, d, N) in pick([(1, 0, 6), (1, 2, 6), (2, 0, 5), (2, 3, 7), (3, 0, 6), (3, 2, 5), (4, 0, 5), (5, 0, 4)], 4):
+            dft_generic_case(n_ ** pw * (Lc.US(n_ - d) if d else 1), N, False, 'n^p roundtrip', flags={'ramp_step_delay_ge2': d >= 2})
+
+    stream('dtft')
+    for i in (range(40 if quick else 400) if (gen and cur[0]) else []):
         nt = rng.choice([1, 1, 2, 3]) if i % 2 == 0 else 1
         terms = []
         for _ in range(nt):
@@ -1046,6 +1287,317 @@ def run(chk, replay=None):
                 a = Fraction(rng.choice([1, -1, 2, -2]), rng.choice([3, 4, 5]))
                 terms.append((rnd_frac(rng), rng.choice([0, 0, 1]), a, 'step', rng.randint(0, 3), trig, rb, rc))
         dtft_case(terms)
+
+
+    # ------------------------------------------------------------------ sequences with an origin (nseq.ZT/DFT, zseq.IZT)
+    def seqorg_case(vals, n0):
+        newcase()
+        key = ('seqorg', lst(vals), n0)
+        org = 'zero' if n0 == 0 else ('positive' if n0 > 0 else 'negative')
+        chk.count('seqorg.origin', org)
+        x = Lc.lcapy.seq([Lc.rat(v) for v in vals], list(range(n0, n0 + len(vals))))
+        z0 = rnd_frac(rng, -5, 5, 3)
+        try:
+            Z = x.ZT()
+            zn = [int(v) for v in Z.n]
+            zv = [Lc.tofrac(S.cancel(v.sympy.subs(Lc.z, Lc.rat(z0)))) for v in Z.vals]
+            xb = Z.IZT()
+            bn = [int(v) for v in xb.n]
+            bv = [Lc.tofrac(S.cancel(v.sympy.subs(Lc.z, Lc.rat(z0)))) for v in xb.vals]
+        except Exception as ex:   # noqa
+            chk.count('seqorg.lcapy-error', type(ex).__name__)
+            chk.case(key, False)
+            return
+        chk.case(key, True)
+        chk.sample({'stream': 'seqorg', 'vals': lst(vals), 'n0': n0, 'lcapy_ZT': str(Z)[:120], 'lcapy_ZT_n': zn})
+        # correspondence: the element list and its first index (model selected by the regenerated flags)
+        m1 = drv.ask1('seq.zt %s %d %s' % (fstr(z0), n0, lst(vals))).split()
+        chk.coverage['correspondence']['compared'] += 1
+        if (zn[0] if zn else 0, lst(zv)) != (int(m1[0]), m1[1]):
+            disagree('seq.ZT', {'vals': lst(vals), 'n0': n0, 'z': fstr(z0), 'lcapy': [zn[:1], lst(zv)], 'model': m1})
+        m2 = drv.ask1('seq.iztzt %s %d %s' % (fstr(z0), n0, lst(vals))).split()
+        chk.coverage['correspondence']['compared'] += 1
+        if (bn[0] if bn else 0, lst(bv)) != (int(m2[0]), m2[1]):
+            disagree('seq.IZT', {'vals': lst(vals), 'n0': n0, 'z': fstr(z0), 'lcapy': [bn[:1], lst(bv)], 'model': m2})
+        # oracle 1: the terms sum to the defining sum of the sequence (unilateral = bilateral unless n0 < 0)
+        bi, uni = [Fraction(v) for v in drv.ask1('seq.ztspec %s %d %s' % (fstr(z0), n0, lst(vals))).split()]
+        tot = sum(zv, Fraction(0))
+        if tot != uni:
+            if tot == bi:      # samples before n = 0 kept: the advance finding, seen through a sequence
+                kk = {'kind': 'zt', 'advance': True}
+            else:
+                kk = {'kind': 'seq-zt', 'origin': org}
+            cex(kk, {'input': {'vals': lst(vals), 'n0': n0, 'z': fstr(z0)}, 'lcapy': {'ZT': str(Z), 'n': zn, 'sum_at_z': fstr(tot)},
+                     'spec': 'sum of the z-transform terms = sum_n x[n] z^-n: unilateral %s, bilateral %s' % (fstr(uni), fstr(bi))},
+                'z-transform of a sequence with an origin is not the defining sum')
+        # oracle 2: IZT(ZT(x)) = x (same indices, same values)
+        if (bn, bv) != (list(range(n0, n0 + len(vals))), list(vals)):
+            cex({'kind': 'seq-izt-zt', 'origin': org},
+                {'input': {'vals': lst(vals), 'n0': n0}, 'lcapy': {'n': bn, 'vals': lst(bv)}, 'spec': 'IZT(ZT(x)) = x with the same indices'},
+                'sequence IZT(ZT(x)) does not return the sequence')
+        # DFT / IDFT of the sequence (periodic reading of the indices): model + defining sum in F_P, round trip
+        N = len(vals)
+        if (FP - 1) % N == 0:
+            try:
+                X = x.DFT()
+                Xv = [FpEval(Lc, {}).ev(v.sympy) for v in X.vals]
+                xr = X.IDFT()
+                rv = [Lc.tofrac(v.sympy) for v in xr.vals]
+            except Exception as ex:   # noqa
+                chk.count('seqorg.lcapy-error', 'dft:' + type(ex).__name__)
+                return
+            chk.count('seqorg.dft', 'done')
+            for k in range(N):
+                q = zeta(N, -k)
+                mv, sv = [int(v) for v in drv.ask1('seq.dft %d %d %s' % (q, n0, ','.join(str(fp_of_frac(v)) for v in vals))).split()]
+                chk.coverage['correspondence']['compared'] += 1
+                if mv != Xv[k]:
+                    disagree('seq.DFT', {'vals': lst(vals), 'n0': n0, 'k': k, 'lcapy_mod_P': Xv[k], 'model_mod_P': mv})
+                if sv != Xv[k]:
+                    cex({'kind': 'seq-dft', 'origin': org}, {'input': {'vals': lst(vals), 'n0': n0, 'k': k}, 'lcapy': str(X)[:300],
+                                                           'lcapy_value_mod_P': Xv[k], 'spec_value_mod_P': sv,
+                                                           'spec': 'X[k] = sum over the sequence indices of x[n] exp(-2 pi i n k / N)'},
+                        'sequence DFT differs from the defining sum')
+                    break
+            want = [vals[(i - n0) % N] for i in range(N)]     # the N-periodic reading: index i mod N
+            if rv != want:
+                cex({'kind': 'seq-idft-dft', 'origin': org}, {'input': {'vals': lst(vals), 'n0': n0}, 'lcapy': lst(rv),
+                                                            'spec': 'IDFT(DFT(x))[i] = x[i mod N]: ' + lst(want)},
+                    'sequence IDFT(DFT(x)) does not return the sequence')
+
+    stream('seqorg')
+    for i in (range(24 if quick else 240) if (gen and cur[0]) else []):
+        vals = [rnd_frac(rng, -4, 4, 2, nonzero=(j == 0)) for j in range(rng.randint(1, 5))]
+        seqorg_case(vals, [0, 0, 1, 2, 3, -1, -2, rng.randint(-4, 4)][i % 8])
+
+    # ------------------------------------------------------------------ DTFT rule cascade (model of DTFTTransformer.term), incl. combs
+    DANG = [Fraction(1, 3), Fraction(1, 2), Fraction(2, 3), Fraction(1, 4), Fraction(1, 6), Fraction(3, 4)]
+
+    def eip(r):                                   # image of exp(i pi r)
+        return zeta(2 * r.denominator, r.numerator)
+
+    def d2_tokens(t):
+        (coef, pw, a, gate, d, trig, rb, rc) = t
+        head = '%s %d %s %s %d ' % (fstr(coef), pw, fstr(a), gate, d)
+        if trig is None:
+            return head + 'none'
+        if trig == 'cos':
+            return head + 'cos %d %d' % (eip(rb), eip(rc))
+        return head + 'sin %d %d %d' % (eip(rb), eip(rc), zeta(4, 1))
+
+    def comb_of(Xs, Om):
+        """Dirac-comb part of Lcapy's DTFT: {location theta/pi (mod 2): weight/(2 pi) in F_P}, and the regular rest"""
+        combs, reg = {}, S.Integer(0)
+        for term in S.Add.make_args(S.expand(Xs)):
+            sums = [a_ for a_ in term.atoms(S.Sum) if a_.has(S.DiracDelta)]
+            if not sums:
+                if term.has(S.DiracDelta):
+                    raise Unsupported('bare DiracDelta')
+                reg = reg + term
+                continue
+            if len(sums) != 1:
+                raise Unsupported('product of combs')
+            sm = sums[0]
+            dd = sm.args[0]
+            if dd.func != S.DiracDelta or len(dd.args) != 1:
+                raise Unsupported('derivative of a comb')
+            m = sm.args[1][0]
+            arg = S.expand(dd.args[0])
+            a1 = arg.coeff(Om, 1)
+            rest = S.expand(arg - a1 * Om).subs(m, 0)
+            if a1 not in (1, -1):
+                raise Unsupported('comb argument')
+            theta = Lc.tofrac(S.nsimplify(-rest / a1 / S.pi))          # location / pi, exact rational
+            wgt = S.simplify(term / sm / (2 * S.pi))
+            loc = theta % 2
+            combs[loc] = (combs.get(loc, 0) + FpEval(Lc, {}).ev(wgt)) % FP
+        return combs, reg
+
+    def dtft2_case(terms):
+        newcase()
+        toks = ' ; '.join(d2_tokens(t) for t in terms)
+        key = ('dtft2', toks)
+        finite = all(t[3] == 'imp' for t in terms)
+        fam = '+'.join(sorted(set(t[3] + ('-adv' if t[4] < 0 else '') + ('*' + t[5] if t[5] else '') + ('*n^%d' % t[1] if t[1] else '') +
+                                  ('*a^n' if t[2] != 1 else '') for t in terms)))
+        chk.count('dtft2.family', fam)
+        e = sum((dt_expr(t) for t in terms), S.Integer(0))
+        try:
+            X = Lc.lcapy.nexpr(e).DTFT(Lc.lcapy.Omega)
+            Xs = X.sympy
+        except Exception as ex:   # noqa
+            chk.count('dtft2.lcapy-error', type(ex).__name__)
+            chk.case(key, False)
+            return
+        Osyms = [s_ for s_ in Xs.free_symbols if s_.name == 'Omega']
+        try:
+            if Xs.has(S.Sum) and not Xs.has(S.DiracDelta):
+                raise Unsupported('unevaluated sum')
+            combs, reg = comb_of(Xs, Osyms[0]) if Xs.has(S.DiracDelta) else ({}, Xs)
+            if reg.free_symbols - set(Osyms):
+                raise Unsupported('free symbols')
+        except Exception as ex:   # noqa
+            chk.count('degenerate', 'dtft2-unparsed:' + str(ex)[:24])
+            chk.case(key, False)
+            return
+        chk.case(key, True)
+        chk.sample({'stream': 'dtft2', 'terms': toks, 'expr': str(e)[:140], 'lcapy': str(Xs)[:200]})
+        if combs:
+            chk.count('dtft2.comb', 'present')
+        first = True
+        for r in rng.sample(ANG, 2 if quick else 4):
+            env = {s_: S.pi * Lc.rat(r) for s_ in Osyms}
+            try:
+                lv = FpEval(Lc, env).ev(reg)
+            except ZeroDivisionError:
+                chk.count('degenerate', 'dtft-pole-hit')
+                continue
+            except Unsupported as ex:
+                chk.count('degenerate', 'dtft2-unevaluable:' + str(ex)[:30])
+                return
+            E = zeta(2 * r.denominator, -r.numerator)            # e^{-j Omega}
+            rep_ = drv.ask1('dtft2.model %d | %s' % (E, toks)).split()
+            if rep_[0] == 'undef':
+                chk.count('degenerate', 'dtft-pole-hit')
+                continue
+            chk.coverage['correspondence']['compared'] += 1
+            if int(rep_[0]) != lv:
+                disagree('dtft2', {'terms': toks, 'expr': str(e), 'Omega': 'pi*%s' % fstr(r), 'lcapy_mod_P': lv, 'model_mod_P': int(rep_[0])})
+            if first:
+                first = False
+                mc = {}
+                if rep_[1] != '-':
+                    for pr in rep_[1].split(','):
+                        loc_, w_ = [int(v) for v in pr.split(':')]
+                        mc[loc_] = (mc.get(loc_, 0) + w_) % FP
+                lc_ = {}
+                for loc, w_ in combs.items():
+                    kk_ = eip(loc)
+                    lc_[kk_] = (lc_.get(kk_, 0) + w_) % FP
+                mc = {k_: v for k_, v in mc.items() if v}
+                lc_ = {k_: v for k_, v in lc_.items() if v}
+                chk.coverage['correspondence']['compared'] += 1
+                if mc != lc_:
+                    disagree('dtft2.comb', {'terms': toks, 'expr': str(e), 'lcapy': str(Xs)[:300], 'lcapy_combs': lc_, 'model_combs': mc})
+            if finite:
+                lo = min(t[4] for t in terms)
+                ln = max(t[4] for t in terms) - lo + 1
+                sv = int(drv.ask1('dtft2.spec %d %d %d | %s' % (lo, ln, E, toks)))
+                if lv != sv:
+                    cex({'kind': 'dtft', 'finite_support': True, 'sine_with_phase': any(t[5] == 'sin' and t[7] != 0 for t in terms)},
+                        {'input': {'expr': str(e), 'terms': toks, 'Omega': 'pi*%s' % fstr(r)}, 'lcapy': str(Xs),
+                         'lcapy_value_mod_P': lv, 'spec_value_mod_P': sv, 'P': FP,
+                         'spec': 'X(Omega) = sum_n x[n] exp(-j Omega n) over the finite support (dtftSum), in F_P'},
+                        'DTFT differs from the defining sum on the unit circle')
+                    return
+
+    stream('dtft2')
+    for i in (range(36 if quick else 360) if (gen and cur[0]) else []):
+        nt = 1 if i % 3 else 2
+        terms = []
+        for _ in range(nt):
+            trig = rng.choice([None, None, 'sin', 'cos'])
+            rb, rc = rng.choice(DANG), rng.choice([Fraction(0), Fraction(1, 4), Fraction(1, 6), Fraction(1, 3), Fraction(-1, 3)])
+            mode = i % 6
+            if mode in (0, 1):     # finite support, delays and advances
+                terms.append((rnd_frac(rng), rng.choice([0, 0, 1, 2]) if trig is None else 0, Fraction(1), 'imp', rng.randint(-4, 5), trig, rb, rc))
+            elif mode in (2, 3):   # geometric, |a| < 1, delayed or advanced step
+                a = Fraction(rng.choice([1, -1, 2, -2]), rng.choice([3, 4, 5]))
+                terms.append((rnd_frac(rng), rng.choice([0, 0, 1, 2]), a, 'step', rng.randint(-2, 3), trig, rb, rc))
+            else:                  # not summable: plain / modulated steps -> Dirac combs (formal pairs)
+                terms.append((rnd_frac(rng), 0, Fraction(1), 'step', rng.randint(-2, 3), trig, rb, rc))
+        dtft2_case(terms)
+
+    # ------------------------------------------------------------------ discretize (sexpr.py): substitutions s = f(z)
+    from lcapy.sym import dt as dtsym, ssym
+
+    def disc_case(num, den, method, alpha):
+        newcase()
+        key = ('disc', lst(num), lst(den), method, fstr(alpha))
+        chk.count('disc.method', method)
+        Hs = sum(Lc.rat(c) * ssym ** i for i, c in enumerate(num)) / sum(Lc.rat(c) * ssym ** i for i, c in enumerate(den))
+        H = Lc.lcapy.sexpr(Hs)
+        try:
+            if method == 'gbf':
+                Hz = H.discretize('gbf', alpha=Lc.rat(alpha))
+            else:
+                Hz = H.discretize(method)
+            Hz = Hz.sympy
+        except Exception as ex:   # noqa
+            chk.count('disc.lcapy-error', type(ex).__name__)
+            chk.case(key, False)
+            return
+        chk.case(key, True)
+        chk.sample({'stream': 'disc', 'H': str(Hs), 'method': method, 'lcapy': str(Hz)[:160]})
+        kind = 'simpson' if method == 'simpson' else 'gbt'
+        al = {'bilinear': Fraction(1, 2), 'tustin': Fraction(1, 2), 'trapezoidal': Fraction(1, 2), 'euler': Fraction(0), 'forward-euler': Fraction(0),
+              'forward-diff': Fraction(0), 'backward-euler': Fraction(1), 'backward-diff': Fraction(1), 'gbf': alpha, 'simpson': Fraction(0)}[method]
+        for _ in range(2):
+            d0, z0 = rnd_frac(rng, 1, 9, 7), rnd_frac(rng, -9, 9, 7)
+            mv = drv.ask1('disc.model %s %s %s %s %s %s' % (kind, fstr(al), fstr(d0), fstr(z0), lst(num), lst(den))).split()[0]
+            try:
+                lv = Lc.tofrac(S.cancel(Hz.subs({dtsym: Lc.rat(d0), Lc.z: Lc.rat(z0)})))
+            except Exception:   # noqa
+                lv = None
+            if mv == 'undef' or lv is None or lv.denominator == 0:
+                chk.count('degenerate', 'disc-pole-hit')
+                continue
+            # the code scales simpson results of an undefined-quantity expression by Delta_t (generalized bilinear: by 1)
+            want = Fraction(mv) * (d0 if kind == 'simpson' else 1)
+            chk.coverage['correspondence']['compared'] += 1
+            if want != lv:
+                disagree('discretize', {'H': str(Hs), 'method': method, 'dt': fstr(d0), 'z': fstr(z0), 'lcapy': fstr(lv), 'model': fstr(want)})
+
+    def ii_case(r, pint, method):
+        """H(s) = r / (s - p), p an integer: impulse invariance / matched-Z give  Delta r / (1 - e^{p Delta} / z)"""
+        newcase()
+        key = ('ii', fstr(r), pint, method)
+        chk.count('disc.method', method)
+        H = Lc.lcapy.sexpr(Lc.rat(r) / (ssym - pint))
+        try:
+            Hz = H.discretize(method).sympy
+        except Exception as ex:   # noqa
+            chk.count('disc.lcapy-error', type(ex).__name__)
+            chk.case(key, False)
+            return
+        if Hz.has(S.Sum):
+            chk.count('degenerate', 'disc-no-closed-form')
+            chk.case(key, False)
+            return
+        chk.case(key, True)
+        E0, d0, z0 = rnd_frac(rng, 1, 5, 4), rnd_frac(rng, 1, 9, 7), rnd_frac(rng, -9, 9, 7)
+        try:
+            lv = Lc.tofrac(S.cancel(S.expand(Hz).subs(S.exp(dtsym), Lc.rat(E0)).subs({dtsym: Lc.rat(d0), Lc.z: Lc.rat(z0)})))
+        except Exception:   # noqa
+            chk.count('degenerate', 'disc-unevaluable')
+            return
+        mv = drv.ask1('ii.model %s %s 4 | %s %s' % (fstr(d0), fstr(z0), fstr(r), fstr(E0 ** pint))).split()[0]
+        if mv == 'undef':
+            chk.count('degenerate', 'disc-pole-hit')
+            return
+        chk.coverage['correspondence']['compared'] += 1
+        if Fraction(mv) != lv:
+            disagree('discretize', {'H': str(H), 'method': method, 'lcapy': fstr(lv), 'model': mv, 'E': fstr(E0), 'dt': fstr(d0), 'z': fstr(z0)})
+
+    stream('disc')
+    METHODS = ['bilinear', 'forward-euler', 'backward-euler', 'gbf', 'simpson', 'tustin', 'euler', 'backward-diff']
+    for i in (range(16 if quick else 160) if (gen and cur[0]) else []):
+        nn, nd = rng.randint(1, 3), rng.randint(2, 4)
+        num = [rnd_frac(rng, -4, 4, 3, nonzero=(j == 0)) for j in range(nn)]
+        den = [rnd_frac(rng, -4, 4, 3, nonzero=(j == nd - 1)) for j in range(nd)]
+        disc_case(num, den, METHODS[i % len(METHODS)], Fraction(rng.randint(0, 4), 4))
+    for i in (range(6 if quick else 40) if (gen and cur[0]) else []):
+        ii_case(rnd_frac(rng), rng.choice([-3, -2, -1, 1, 2]), ['impulse-invariance', 'matched-Z'][i % 2])
+
+    stream('end')
+    bcov.stop()
+    chk.coverage['stream_seconds'] = stream_t
+    bt = bcov.table()
+    # keep the evidence compact: per-file summary, the unreached list, and the full rows of the DFT/DTFT case analyses
+    chk.coverage['branch_coverage'] = {'instrument': bt['instrument'], 'active': bt['active'], 'summary': bt['summary'],
+                                       'unreached': bt['unreached'],
+                                       'rows': {k: [[r['fn'], r['line'], r['kind'], r['hits']] for r in v] for k, v in bt['files'].items()
+                                                if k in ('dft.py', 'dtft.py')}}
 
     # ------------------------------------------------------------------ replay of one recorded case
     if replay is not None:
